@@ -96,6 +96,12 @@ var oddityDims = [][]oddity{
 		{name: "meta=match", apply: func(o *Opts) { o.Meta = "match" }, oci: true, blob: true},
 		{name: "meta=mismatch", apply: func(o *Opts) { o.Meta = "mismatch" }, oci: true, blob: true},
 	},
+	{ // the artifact presented
+		{name: "desc=other-artifact", apply: func(o *Opts) { o.Desc = "other" }, oci: true, blob: true},
+		// two reasons to refuse at once would be one too few if the second check forgot the first
+		{name: "desc=other-artifact+meta=match", apply: func(o *Opts) { o.Desc, o.Meta = "other", "match" }, oci: true, blob: true},
+		{name: "desc=other-artifact+meta=empty", apply: func(o *Opts) { o.Desc, o.Meta = "other", "empty" }, oci: true, blob: true},
+	},
 	{ // plugin configuration
 		{name: "pluginCfg=empty", apply: func(o *Opts) { o.PluginCfg = "empty" }, oci: true, blob: true},
 		{name: "pluginCfg=set", apply: func(o *Opts) { o.PluginCfg = "set" }, oci: true, blob: true},
